@@ -558,6 +558,17 @@ func flowsToCall(v ssa.Value, name string, depth int, seen map[ssa.Value]bool) b
 			if flowsToCall(x, name, depth, seen) {
 				return true
 			}
+		case *ssa.BinOp:
+			// text built by concatenation
+			if bt, ok := x.Type().Underlying().(*types.Basic); ok && bt.Info()&types.IsString != 0 && x.Op == token.ADD {
+				if flowsToCall(x, name, depth, seen) {
+					return true
+				}
+			}
+		case *ssa.Phi:
+			if flowsToCall(x, name, depth, seen) {
+				return true
+			}
 		}
 	}
 	// an Alloc used as the varargs array, or a local array that is ranged over
@@ -698,42 +709,55 @@ func (c *Check) nmLookup() {
 	if f == nil {
 		return
 	}
-	// early return: entry block tests len(a.m) == 0
-	okEmpty := false
-	if len(f.Blocks) > 0 {
-		if iff, ok := f.Blocks[0].Instrs[len(f.Blocks[0].Instrs)-1].(*ssa.If); ok {
-			if cmp, ok := iff.Cond.(*ssa.BinOp); ok && cmp.Op == token.EQL && lenArg(cmp.X) != nil {
-				if k, ok := constInt(cmp.Y); ok && k == 0 {
-					okEmpty = true
-				}
+	// every read of a fixed element of the symbol table (a.m[0]) happens where the table is known
+	// to be non-empty; the lookup may be split over helpers
+	g := newGuardEngine(p)
+	okEmpty, nFixed := true, 0
+	for _, h := range withHelpers(f, 2) {
+		for _, site := range g.collectSites(h, true) {
+			if !isFieldLoad(site.x, "binutils.addr2LinerNM", "m") {
+				continue
+			}
+			nFixed++
+			if g.discharge(site) == "" {
+				okEmpty = false
 			}
 		}
 	}
 	if okEmpty {
-		c.ok("C13-R5", "nm:empty", p.relFile(f.Pos()), "nm lookup returns early for an empty symbol table", "the first test is len(a.m) == 0, before any element is read")
+		c.ok("C13-R5", "nm:empty", p.relFile(f.Pos()), "nm lookup returns early for an empty symbol table", fmt.Sprintf("%d reads of fixed elements of the table (first, last), all after a test that it is not empty", nFixed))
 	} else {
 		c.bad("C13-R5", "nm:empty", p.relFile(f.Pos()), "nm lookup does not start with the empty-table test: a.m[0] panics for a binary without symbols")
 	}
-	// data symbol: addr >= address + size guarded by isData()
+	// data symbol: addr >= address + size, evaluated only for data symbols
 	okData := false
-	for _, b := range f.Blocks {
-		for _, ins := range b.Instrs {
-			cmp, ok := ins.(*ssa.BinOp)
-			if !ok || cmp.Op != token.GEQ {
-				continue
+	for _, h := range withHelpers(f, 2) {
+		notData := reachUnder(h, func(cond ssa.Value) int {
+			if call, ok := cond.(*ssa.Call); ok && call.Call.StaticCallee() != nil && call.Call.StaticCallee().Name() == "isData" {
+				return -1
 			}
-			add, ok := cmp.Y.(*ssa.BinOp)
-			if !ok || add.Op != token.ADD {
-				continue
+			return 0
+		})
+		hasIsData := false
+		for _, b := range h.Blocks {
+			for _, ins := range b.Instrs {
+				if call, ok := ins.(*ssa.Call); ok && call.Call.StaticCallee() != nil && call.Call.StaticCallee().Name() == "isData" {
+					hasIsData = true
+				}
 			}
-			if isFieldLoad(add.X, "binutils.symbolInfo", "address") && isFieldLoad(add.Y, "binutils.symbolInfo", "size") {
-				// the block is entered from an isData() test
-				for _, pb := range b.Preds {
-					if iff, ok := pb.Instrs[len(pb.Instrs)-1].(*ssa.If); ok {
-						if call, ok := iff.Cond.(*ssa.Call); ok && call.Call.StaticCallee() != nil && call.Call.StaticCallee().Name() == "isData" {
-							okData = true
-						}
-					}
+		}
+		for _, b := range h.Blocks {
+			for _, ins := range b.Instrs {
+				cmp, ok := ins.(*ssa.BinOp)
+				if !ok || (cmp.Op != token.GEQ && cmp.Op != token.LSS) {
+					continue
+				}
+				add, ok := cmp.Y.(*ssa.BinOp)
+				if !ok || add.Op != token.ADD {
+					continue
+				}
+				if isFieldLoad(add.X, "binutils.symbolInfo", "address") && isFieldLoad(add.Y, "binutils.symbolInfo", "size") && hasIsData && !notData[b] {
+					okData = true
 				}
 			}
 		}
